@@ -653,6 +653,13 @@ func (st *AclState) applyAccountsAdd(ch *aclrecordproto.AclAccountsAdd, record *
 			KeyRecordId:       st.CurrentReadKeyId(),
 			PermissionChanges: permissionChanges,
 		}
+		// the account is a member now: a join request it had pending is settled, as it is when
+		// the account joins through an invite. A stale request could otherwise be "accepted"
+		// later and overwrite the permissions the account was added with
+		if recId, exists := st.pendingRequests[pKeyString]; exists {
+			delete(st.pendingRequests, pKeyString)
+			delete(st.requestRecords, recId)
+		}
 
 		// If the current account is the one being added, then decrypt the read key using its private key
 		// and add the read key to the state.
